@@ -81,9 +81,22 @@ def main(tier, seed, replay=None):
                 c = LV.gen_case(rng)
                 c["sg"] = S.shapes_to_rdf(c["shapes"])
                 opts, api, fam = {}, "validate", "core components"
-            elif r < 0.65:
+            elif r < 0.62:
                 c = c05.gen_case(rng)
                 opts, api, fam = {}, "validate", "sparql constraints"
+            elif r < 0.7:
+                # an ill-formed list (a node with two rdf:rest or two rdf:first values) has no well-defined members:
+                # whatever the outcome is, it must not depend on which of the two the store lists first
+                c = EC.base_case(rng)
+                kind_ = rng.choice(["rest", "rest", "first"])
+                extra_ttl = ("@prefix sh: <http://www.w3.org/ns/shacl#> . @prefix ex: <http://ex.org/> . @prefix rdf: <http://www.w3.org/1999/02/22-rdf-syntax-ns#> .\n"
+                             "ex:LL a sh:NodeShape ; sh:targetNode ex:n0, ex:n1 ; sh:in _:l .\n")
+                if kind_ == "rest":
+                    extra_ttl += "_:l rdf:first ex:n0 ; rdf:rest _:m , rdf:nil . _:m rdf:first ex:n1 ; rdf:rest rdf:nil .\n"
+                else:
+                    extra_ttl += "_:l rdf:first ex:n0 , ex:n1 ; rdf:rest rdf:nil .\n"
+                c["sg"].parse(data=extra_ttl, format="turtle")
+                opts, api, fam = {}, "validate", "ill-formed (branching) lists"
             elif r < 0.8:
                 # class targets over subclass hierarchies with diamonds and cycles: the order in which the store lists
                 # the subclasses of a class is an insertion-order effect
